@@ -115,7 +115,7 @@ int main (int argc, char **argv)
 			qsx_parse_q (qsx_tok[1], a);
 			d = mpq_get_d (a);
 			mpq_set_d (b, d);
-			printf ("GETD "); mpq_out_str (qsx_out, 10, b); putchar ('\n');
+			printf ("GETD "); mpq_out_str (qsx_get_out (), 10, b); putchar ('\n');
 			mpq_clear (a); mpq_clear (b);
 		}
 		else if (!strcmp (op, "MKFILE"))
@@ -396,6 +396,6 @@ int main (int argc, char **argv)
 	QSexactClear ();
 	free (qsx_line); free (qsx_tok);
 	qsx_capture_report ();
-	fflush (qsx_out);
+	fflush (qsx_get_out ());
 	return 0;
 }
